@@ -121,7 +121,7 @@ impl Reloc for FixedSizeIndexQueue<2> {
     }
 }
 
-impl Reloc for FixedSizeSafelyOverflowingIndexQueue<2> {
+impl<const CAP: usize> Reloc for FixedSizeSafelyOverflowingIndexQueue<CAP> {
     unsafe fn mk(at: *mut Self) { at.write(Self::new()) }
     fn op(&mut self, code: u8, arg: u64) -> u64 {
         if code & 1 == 0 { opt(unsafe { self.push(arg) }) ^ 1 } else { opt(unsafe { self.pop() }) }
@@ -403,6 +403,9 @@ impl Reloc for FixedSizeFlatMap<u8, u8, 2> {
 
 proof!(8, fn c14_index_queue() { relocation::<FixedSizeIndexQueue<2>, 3>(); canaries(); });
 proof!(8, fn c14_overflow_queue() { relocation::<FixedSizeSafelyOverflowingIndexQueue<2>, 3>(); canaries(); });
+// capacity 1: fill, overflow, relocate, push again fits into three operations (the overflow path is the only
+// one that touches the oldest cell from the producer side)
+proof!(8, fn c14_overflow_queue_cap1() { relocation::<FixedSizeSafelyOverflowingIndexQueue<1>, 3>(); canaries(); });
 proof!(8, fn c14_unique_index_set() { relocation::<UisUnderTest, 3>(); canaries(); });
 proof!(8, fn c14_robust_index_set() { relocation::<StaticRobustUniqueIndexSet<2>, 2>(); canaries(); });
 proof!(11, fn c14_bit_set() { relocation::<FixedSizeBitSet<9>, 2>(); canaries(); });
